@@ -8,7 +8,7 @@ SPEC = dict(
     parallel_configs=2,
     level='exploration',
     rule='for every tree shape reachable through the library with <= N nodes (AVL N=15 quick/22 thorough; red-black N=12/17) and for random trees up '
-         'to 4096 nodes: the six foreach macros are run and compared by node address with a recursive traversal over child links; next, prev, '
+         'to 4096 nodes: the six foreach macros (lower-case and upper-case forms) and the fortear macro are run and compared by node address with a recursive traversal over child links; next, prev, '
          'pre_next, pre_prev, post_next, post_prev are called on EVERY node and compared with the successor in the corresponding order (null at '
          'the end); head/tail/post_head/post_tail; tear-down in four variants (complete; `next` reset to null at a random step; interrupted '
          'after k steps; started from EVERY node as the documented explicit starting node) with each node free()d the moment it is handed out, children-before-parents and reachable-set == not-yet-handed-out '
@@ -18,7 +18,7 @@ SPEC = dict(
                 'thorough': 'all reachable AVL shapes <= 22 nodes and red-black shapes <= 17 nodes, every starting node'},
     require=['foreach', 'foreach_reverse', 'pre_foreach', 'pre_foreach_reverse', 'post_foreach', 'post_foreach_reverse',
              'next', 'pre_next', 'pre_prev', 'post_next', 'post_prev', 'prev+inverse', 'head-tail',
-             'tear-full', 'tear-reset-next', 'tear-interrupted', 'tear-from-explicit-node', 'tear-steps'],
+             'tear-full', 'tear-reset-next', 'tear-interrupted', 'tear-from-explicit-node', 'tear-fortear-macro', 'FOREACH-macro', 'POST_FOREACH_REVERSE-macro', 'tear-steps'],
     cov_files=['avl.c'], cov_funcs=r'^a_avl_(head|tail|next|prev|pre_|post_|tear)', cov_cases=120,
     assumptions=_COMMON + ['handed-out nodes are free()d immediately, so any later read is an ASan use-after-free',
                            'iterator code of avl.c and rbt.c is textually identical but separately compiled; both are executed'],
